@@ -17,6 +17,10 @@ module Z :
 
   val opp : coq_Z -> coq_Z
 
+  val succ : coq_Z -> coq_Z
+
+  val pred : coq_Z -> coq_Z
+
   val sub : coq_Z -> coq_Z -> coq_Z
 
   val mul : coq_Z -> coq_Z -> coq_Z
@@ -36,6 +40,10 @@ module Z :
   val gtb : coq_Z -> coq_Z -> bool
 
   val eqb : coq_Z -> coq_Z -> bool
+
+  val max : coq_Z -> coq_Z -> coq_Z
+
+  val min : coq_Z -> coq_Z -> coq_Z
 
   val to_nat : coq_Z -> nat
 
@@ -59,9 +67,13 @@ module Z :
 
   val rem : coq_Z -> coq_Z -> coq_Z
 
+  val log2 : coq_Z -> coq_Z
+
   val coq_lor : coq_Z -> coq_Z -> coq_Z
 
   val coq_land : coq_Z -> coq_Z -> coq_Z
 
   val coq_lxor : coq_Z -> coq_Z -> coq_Z
+
+  val log2_up : coq_Z -> coq_Z
  end
